@@ -266,6 +266,23 @@ class Scenario:
         if 'C12' in self.oracles:
             self.check_not_reachable(idx, 'destructor ran', prop='C12')
         oi.destroyed = True
+        if 'C08' in self.oracles and not self.stale:
+            # "at every point": while a value is being destroyed no live object's table may still name its object
+            for j, oj in self.objs.items():
+                if j == idx or oj.destroyed or oj.unwrapped or oj.freed or not self.rcbox(j).live:
+                    continue
+                t = self.table(j)
+                if t is None or t == 'freed':
+                    continue          # j is itself in the middle of its teardown
+                s = self.strong(j)
+                if not is_sym(s) and s in (0, MASK):
+                    continue
+                for (kind, tgt), cnt in t.items():
+                    if tgt == idx:
+                        self.subject = [j]
+                        raise Violation('C08', 'names-dead-during-teardown',
+                                        'while the value of object %d is being destroyed, the table of live object %d still has a %s record naming it' % (idx, j, kind),
+                                        self.model_values(None))
 
     def on_dealloc(self, E, heap_id):
         idx = self.box2obj.get(heap_id)
@@ -699,28 +716,30 @@ class Scenario:
             if 'C06' in self.oracles and not self.is_dead_handle(x):
                 self.require(s_eq(r, self.weak_holders(x['obj'])), 'C06', 'weak-count',
                              'Rc::weak_count of object %d differs from the number of existing Weak handles' % x['obj'])
-        elif k == 'w_strong_count':
+        elif k == 'w_strong_count' or k == 'w_weak_count':
             x = self.h(op['w'], 'weak')
-            r = self.call('Weak', None, 'strong_count', x['ptr'])
+            strong = (k == 'w_strong_count')
+            r = self.call('Weak', None, 'strong_count' if strong else 'weak_count', x['ptr'])
             self.obs(op, self.conc(r))
             if self.oracles & {'C05', 'C06'} and x['obj'] is not None:
                 oi = self.objs[x['obj']]
+                lab = 'C06' if 'C06' in self.oracles else 'C05'
+                what = 'strong_count' if strong else 'weak_count'
                 if oi.destroyed or oi.unwrapped or oi.idx in self.interrupted:
-                    self.require(s_eq(r, 0), 'C05', 'weak-strong-count-dead', 'Weak::strong_count of destroyed object %d is not 0' % oi.idx)
+                    self.require(s_eq(r, 0), 'C05' if 'C05' in self.oracles else lab, 'weak-%s-dead' % ('strong-count' if strong else 'weak-count'),
+                                 'Weak::%s of destroyed object %d is not 0' % (what, oi.idx), subject=[oi.idx])
                 else:
-                    self.require(s_eq(r, self.holders(oi.idx)), 'C06', 'weak-strong-count',
-                                 'Weak::strong_count of live object %d differs from the number of strong handles' % oi.idx)
-        elif k == 'w_weak_count':
-            x = self.h(op['w'], 'weak')
-            r = self.call('Weak', None, 'weak_count', x['ptr'])
-            self.obs(op, self.conc(r))
-            if self.oracles & {'C05', 'C06'} and x['obj'] is not None:
-                oi = self.objs[x['obj']]
-                if oi.destroyed or oi.unwrapped or oi.idx in self.interrupted:
-                    self.require(s_eq(r, 0), 'C05', 'weak-weak-count-dead', 'Weak::weak_count of destroyed object %d is not 0' % oi.idx)
-                else:
-                    self.require(s_eq(r, self.weak_holders(oi.idx)), 'C06', 'weak-weak-count',
-                                 'Weak::weak_count of live object %d differs from the number of Weak handles' % oi.idx)
+                    exp = self.holders(oi.idx) if strong else self.weak_holders(oi.idx)
+                    ok = s_eq(r, exp)
+                    if self.dtor_stack:
+                        # inside a destructor the target may be a doomed peer of the group that is being collected:
+                        # 0 is then the right answer, provided the object is destroyed before the operation returns
+                        z = s_eq(r, 0)
+                        if z is True or (z is not False and not self.E.check(z3.Not(z))):
+                            self.deferred.append((oi.idx, False, self.dtor_stack[-1]))
+                            ok = True
+                    self.require(ok, lab, 'weak-%s' % ('strong-count' if strong else 'weak-count'),
+                                 'Weak::%s of live object %d differs from the number of %s handles' % (what, oi.idx, 'strong' if strong else 'Weak'), subject=[oi.idx])
         elif k == 'links':
             x = self.h(op['h'], 'rc')
             t = self.table(x['obj'])
